@@ -21,6 +21,15 @@ fn refundable_sum(s: &Sim, denom: &str) -> u128 {
     s.refundable().filter(|p| p.denom == denom).map(|p| p.amount).sum()
 }
 
+/// in flight / refundable and destined to `receiver`
+fn flight_to(w: &World, denom: &str, receiver: &str) -> u128 {
+    w.ibc.flight.values().filter(|p| p.denom == denom && p.receiver == receiver).map(|p| p.amount).sum()
+}
+
+fn refundable_to(s: &Sim, denom: &str, receiver: &str) -> u128 {
+    s.refundable().filter(|p| p.denom == denom && p.receiver == receiver).map(|p| p.amount).sum()
+}
+
 /// Invariants evaluated on every distinct state.
 pub fn state_monitors(props: &[&str], s: &Sim) -> Vec<Violation> {
     let mut v = Vec::new();
@@ -42,23 +51,25 @@ pub fn state_monitors(props: &[&str], s: &Sim) -> Vec<Violation> {
                 ),
             ));
         }
-        let cons = s.g.acked_total + flight_sum(&s.w, &sd) + refundable_sum(s, &sd);
+        // "forwarded toward the native-chain staker": only what is delivered to, in flight to, or
+        // refundable for the staker counts
+        let staker = n20(&s.w.k, "staker");
+        let cons = s.g.acked_total + flight_to(&s.w, &sd, &staker) + refundable_to(s, &sd, &staker);
         if s.g.fwd_total != cons {
             v.push(viol(
                 "C01",
                 "state.forwarded.conservation",
                 format!(
-                    "forwarded toward staker {} != delivered {} + in flight {} + refundable {}",
+                    "forwarded toward staker {} != delivered to staker {} + in flight to staker {} + refundable for staker {}",
                     s.g.fwd_total,
                     s.g.acked_total,
-                    flight_sum(&s.w, &sd),
-                    refundable_sum(s, &sd)
+                    flight_to(&s.w, &sd, &staker),
+                    refundable_to(s, &sd, &staker)
                 ),
             ));
         }
         if s.g.honest {
-            let staker = n20(&s.w.k, "staker");
-            let holds = s.w.nbal(&staker, &sd) + flight_sum(&s.w, &sd) + refundable_sum(s, &sd);
+            let holds = s.w.nbal(&staker, &sd) + flight_to(&s.w, &sd, &staker) + refundable_to(s, &sd, &staker);
             let owed: u128 = s.m.batches.values().filter(|b| b.status == MStatus::Submitted).map(|b| b.expected.unwrap_or(0)).sum();
             if holds != st.total_native_token.u128() + owed {
                 v.push(viol(
